@@ -189,6 +189,8 @@ class Facts:
             inner = self.sym_place(pl, depth)
             return ('ref', inner)
         if k == 'bin':
+            if len(rv) > 4 and rv[4] in ('f32', 'f64') and rv[1] in CMP_OPS:
+                return ('bin', rv[1], self.sym_operand(rv[2], depth), self.sym_operand(rv[3], depth), rv[4])
             return ('bin', rv[1], self.sym_operand(rv[2], depth), self.sym_operand(rv[3], depth))
         if k == 'un':
             a = self.sym_operand(rv[2], depth)
@@ -236,6 +238,13 @@ class Facts:
             return self._truth(e[2], not val)
         if e[0] == 'bin' and e[1] in CMP_OPS:
             op = CMP_OPS[e[1]]
+            if len(e) > 4:
+                # floating point: a false comparison does not imply the opposite order (NaN is unordered)
+                if val:
+                    return [('cmp', op, e[2], e[3]), ('ordered', e[2]), ('ordered', e[3])] if op != 'ne' else [('cmp', op, e[2], e[3])]
+                if op == 'ne':
+                    return [('cmp', 'eq', e[2], e[3]), ('ordered', e[2]), ('ordered', e[3])]
+                return [('ncmp', op, e[2], e[3])]
             if not val:
                 op = NEG[op]
             return [('cmp', op, e[2], e[3])]
@@ -656,6 +665,10 @@ def fmt_lit(body, lit):
         return '%s %s %s' % (fmt_sym(body, lit[1]), 'is' if lit[3] else 'is not', lit[2])
     if lit[0] == 'truth':
         return '%s == %s' % (fmt_sym(body, lit[1]), lit[2])
+    if lit[0] == 'ncmp':
+        return 'not(%s %s %s)' % (fmt_sym(body, lit[2]), lit[1], fmt_sym(body, lit[3]))
+    if lit[0] == 'ordered':
+        return 'ordered(%s)' % fmt_sym(body, lit[1])
     if lit[0] == 'try':
         return '%s %s' % (fmt_sym(body, lit[1]), 'succeeded' if lit[2] else 'failed')
     return str(lit)
